@@ -28,6 +28,9 @@ fn emptyslices(t) { var a = t[1..1]; a = nil; churn(1); var b = t[0..0]; churn(1
 fn evict10() { var t = 0; for q in [20..21, 20..22, 20..23, 20..24, 20..25, 20..26, 20..27, 20..28, 20..29, 20..30] { t = t + 1; } return t; }
 fn rangekey(u) { var m = {(u..(u + 4)): [u]}; evict10(); churn(1); var t = 0; for r in m.keys() { for x in r { t = t + x; } } return [t, m.len(), m.values()]; }
 fn rsum(v) { var t = 0; for r in v { for x in r { t = t + x; } } return t; }
+fn bmcycle(u) { var v = []; var w = [v]; v.push(v.push); v.push(w); v.push([u]); churn(2); return (v.len(), w[0].len(), v[2]); }
+fn bmcycle2(u) { var a = mkinst(u); var b = mkinst(u + 1); a.cb = a.sum; a.other = b; b.other = a; b.cb = a.sum; churn(2); return (a.cb(), b.other.a, b.cb()); }
+fn bmcycle3(u) { var m = {}; var ins = m.insert; m.insert("self", ins); m.insert("m", [m, ins]); var it = [m, [u]].iter(); m.insert("it", it.next); churn(2); return (m.len(), it.next() == m, it.next()); }
 fn rangeeq(u) { var a = u..(u + 3); var m = {a: [u]}; churn(1); return (a == u..(u + 3), m.has_key(u..(u + 3)), m.get(u..(u + 3))); }
 fn drain_twice(it) { var n = 0; for x in it { n = n + 1; } churn(1); for x in it { n = n + 100; } churn(1); try { it.next(); n = n + 1000; } catch e { n = n + 10; } return n; }
 fn setfirst(v, x) { v[0] = x; x = nil; churn(1); return [v[0], v.len()]; }
@@ -84,6 +87,8 @@ GCM = """var held = nil;
 var slots = {};
 fn set(x) { held = x; return 1; }
 fn get() { return held; }
+var hc = 500;
+fn mkcb() { return || { hc = hc + 1; return (hc, [hc]); }; }
 """
 
 # ---- targets: name -> (expression with {u}, probe with {h}, hashable)
@@ -97,6 +102,9 @@ TARGETS = {
     "closure": ("mkctr({u})", "({h}(), {h}())", False),
     "class": ("mkcls(({u}, [{u}]))", "({h}.new().get(), {h}.sget())", True),
     "boundmethod": ("mkinst({u}).sum", "{h}()", False),
+    # a constructor / a static method of a class taken as a value: the class is reachable only through the bound callable
+    "bound_constructor": ("mkcls(({u}, [{u}])).new", "{h}().get()", False),
+    "bound_static": ("mkcls(({u}, [{u}])).sget", "{h}()", False),
     "iterator": ("miter({u})", "({h}.next(), {h}.next())", False),
     "range": ("({u}..({u} + 3))", "{h}", True),
     # an iterator over a range that has meanwhile been evicted from the interpreter's range cache: only the iterator holds it
@@ -299,6 +307,10 @@ OPS = [
     # a range that only a map holds, as a key, while more ranges are created than the interpreter's range cache keeps
     "rangekey({u})",
     "rsum([1..2, 1..3, 1..4, 1..5, 1..6, 1..7, 1..8, 1..9, 2..9, 3..9, 4..9, 5..9]) + {u}",
+    # a bound method kept where its receiver is reachable by a second path (cycles through the receiver link)
+    "bmcycle({u})",
+    "bmcycle2({u})",
+    "bmcycle3({u})",
 ]
 # operations that fail: the error object is created while the operands are held only by the interpreter
 FAIL_OPS = [
@@ -392,7 +404,7 @@ def gen_ir(seed):
     # reset sessions: the program after the reset is either compiled after it, or was compiled BEFORE it by the host (which kept
     # the function) and is executed after it
     return {"gadgets": gadgets, "reset": (rng.choice([True, "compiled"]) if rng.chance(0.15) else False),
-            "hostmod": (rng.range(1, 9) if rng.chance(0.1) else 0)}
+            "hostmod": (rng.range(1, 9) if rng.chance(0.1) else 0), "hostheld": rng.chance(0.3)}
 
 
 def render_gadget(g, gi):
@@ -481,6 +493,13 @@ def programs(ir):
                   {"kind": "snippet", "module": "sandbox%d" % ir["hostmod"], "source": 'emit(("ev", "sandbox", 1)); audit(("ev", "sandbox", 2)); emit(("ev", "sandbox", 3));\n'}]
     if ir.get("reset") == "compiled":
         progs += [{"kind": "compile", "source": AFTER_RESET}, {"kind": "reset"}, {"kind": "run", "slot": 0}]
+    elif ir.get("reset") and ir.get("hostheld"):
+        # the host keeps a callback of the script - a closure made by a module - rooted across the reset and hands it back to the
+        # next script: the closure, what it captured and the module whose globals it works on are reachable all along
+        progs += [{"kind": "snippet", "source": 'import "gcm";\nvar held_cb = gcm.mkcb();\nprint(("ev", "held", held_cb()));\n'},
+                  {"kind": "hold", "module": "main", "name": "held_cb"}, {"kind": "reset"},
+                  {"kind": "putback", "slot": 0, "module": "main", "name": "held_cb"},
+                  {"kind": "snippet", "source": 'var filler = []; for i in 0..30 { filler.push([i, "f${i}"]); }\nprint(("ev", "held", held_cb(), held_cb()));\n' + AFTER_RESET}]
     elif ir.get("reset"):
         progs += [{"kind": "reset"}, {"kind": "snippet", "source": AFTER_RESET}]
     return progs
